@@ -202,6 +202,78 @@ static std::string op(const Toks& t) {
       std::ostringstream os; DataTable::write(*dt, os, hexToStr(t[2]));
       return "ok " + std::to_string(dt->getNumberOfRows()) + " " + std::to_string(dt->getNumberOfColumns());
     }
+    if (o == "dt.edit") {        // dt.edit text sep header rowNames script   (table editing: searched, not modelled)
+      std::istringstream in(hexToStr(t[1]));
+      std::unique_ptr<DataTable> dt;
+      if (t[1] == "00") dt.reset(new DataTable(static_cast<size_t>(toI(t[4]) < 0 ? 0 : toI(t[4])), 2));   // DataTable(nRow, 2 columns) without any name
+      else dt = DataTable::read(in, hexToStr(t[2]), t[3] == "1", static_cast<int>(toI(t[4])));
+      size_t raised = 0, calls = 0;
+      std::istringstream is(t[5]); std::string w;
+      while (std::getline(is, w, '.')) {
+        std::vector<std::string> f; { std::istringstream fs(w); std::string x; while (std::getline(fs, x, ':')) f.push_back(x); }
+        if (f.empty()) continue;
+        auto N = [&](size_t i) { return i < f.size() ? toU(f[i]) : size_t(0); };
+        auto S = [&](size_t i) { return i < f.size() ? hexToStr(f[i]) : std::string(); };
+        auto V = [&](size_t n, const char* pre) { std::vector<std::string> v; for (size_t i = 0; i < n && i < 64; ++i) v.push_back(pre + std::to_string(i)); return v; };
+        const std::string& c = f[0]; ++calls;
+        const DataTable& cd = *dt;           // the const overloads too
+        try {
+          if (c == "srn") dt->setRowName(N(1), S(2));
+          else if (c == "srns") dt->setRowNames(V(N(1), "R"));
+          else if (c == "srnd") { auto v = V(N(1), "R"); if (v.size() > 1) v[1] = v[0]; dt->setRowNames(v); }
+          else if (c == "scns") dt->setColumnNames(V(N(1), "C"));
+          else if (c == "grn") (void)dt->getRowName(N(1));
+          else if (c == "gcn") (void)dt->getColumnName(N(1));
+          else if (c == "grns") (void)dt->getRowNames();
+          else if (c == "gcns") (void)dt->getColumnNames();
+          else if (c == "gc") { if (calls & 1) (void)cd.getColumn(N(1)).size(); (void)dt->getColumn(N(1)).size(); }
+          else if (c == "gcN") { if (calls & 1) (void)cd.getColumn(S(1)).size(); (void)dt->getColumn(S(1)).size(); }
+          else if (c == "hc") (void)dt->hasColumn(S(1));
+          else if (c == "hr") (void)dt->hasRow(S(1));
+          else if (c == "dc") dt->deleteColumn(N(1));
+          else if (c == "dcN") dt->deleteColumn(S(1));
+          else if (c == "ac") dt->addColumn(V(N(1), "x"));
+          else if (c == "acN") dt->addColumn(S(1), V(N(2), "x"));
+          else if (c == "gr") (void)dt->getRow(N(1));
+          else if (c == "grN") (void)dt->getRow(S(1));
+          else if (c == "dr") dt->deleteRow(N(1));
+          else if (c == "drN") dt->deleteRow(S(1));
+          else if (c == "ar") dt->addRow(V(N(1), "y"));
+          else if (c == "arN") dt->addRow(S(1), V(N(2), "y"));
+          else if (c == "sr") dt->setRow(N(1), V(N(2), "z"));
+          else if (c == "cell") { if (calls & 1) (void)cd(N(1), N(2)).size(); (*dt)(N(1), N(2)) = "v"; }
+          else if (c == "cellN") { if (calls & 1) (void)cd(S(1), S(2)).size(); (*dt)(S(1), S(2)) = "v"; }
+          else if (c == "cellRN") { if (calls & 1) (void)cd(S(1), N(2)).size(); (*dt)(S(1), N(2)) = "v"; }
+          else if (c == "cellCN") { if (calls & 1) (void)cd(N(1), S(2)).size(); (*dt)(N(1), S(2)) = "v"; }
+          else if (c == "cp") { DataTable d2(*dt); *dt = d2; std::unique_ptr<DataTable> d3(dt->clone()); }
+          else if (c == "w") { std::ostringstream os; DataTable::write(*dt, os, ",", (calls & 1) != 0);
+                               NullOutputStream ns; DataTable::write(*dt, ns, ",", (calls & 2) != 0); }
+        } catch (Exception&) { ++raised; }
+      }
+      // the class invariant, through the public interface: every column and the row names have nRow entries, and the
+      // counts have not wrapped below zero (an erase past the end is undefined but not reported by the sanitizers)
+      bool consistent = dt->getNumberOfRows() < (size_t(1) << 32) && dt->getNumberOfColumns() < (size_t(1) << 32);
+      for (size_t j = 0; consistent && j < dt->getNumberOfColumns(); ++j) consistent = dt->getColumn(j).size() == dt->getNumberOfRows();
+      if (consistent && dt->hasRowNames()) consistent = dt->getRowNames().size() == dt->getNumberOfRows();
+      if (consistent && dt->hasColumnNames()) consistent = dt->getColumnNames().size() == dt->getNumberOfColumns();
+      if (!consistent) return "ub class-invariant";
+      std::ostringstream os; DataTable::write(*dt, os, hexToStr(t[2]));
+      return "ok " + std::to_string(dt->getNumberOfRows()) + " " + std::to_string(dt->getNumberOfColumns()) + " " + std::to_string(raised);
+    }
+    if (o == "at.opts") {        // at.opts n arg1..argn m file0..file(m-1)   (AttributesTools::parseOptions; searched, not modelled)
+      size_t n = toU(t[1]); std::vector<std::string> args(1, "prog");
+      for (size_t i = 0; i < n; ++i) args.push_back(hexToStr(t[2 + i]));
+      size_t m = toU(t[2 + n]);
+      // the parameter files p0, p1, ... live in a fresh directory, which becomes the working directory of this worker
+      char dir[] = "/tmp/verif-c16-opts-XXXXXX";
+      if (!mkdtemp(dir)) return "bad-op";
+      struct Cleanup { std::string d; size_t m; ~Cleanup() { for (size_t i = 0; i < m; ++i) unlink((d + "/p" + std::to_string(i)).c_str()); if (chdir("/") != 0) {} rmdir(d.c_str()); } } cleanup{dir, m};
+      for (size_t i = 0; i < m; ++i) { std::ofstream f(std::string(dir) + "/p" + std::to_string(i), std::ios::binary); f << hexToStr(t[3 + n + i]); }
+      if (chdir(dir) != 0) return "bad-op";
+      std::vector<char*> argv; for (auto& a : args) argv.push_back(const_cast<char*>(a.c_str()));
+      auto mp = AttributesTools::parseOptions(static_cast<int>(argv.size()), argv.data());
+      return "ok " + std::to_string(mp.size());
+    }
     if (o == "dd.read") {
       // flag: bit 0 = parseArguments, bit 1 = verbose (the messages go to the null sink)
       const unsigned long flag = t.size() > 2 ? toU(t[2]) : 1;
@@ -371,6 +443,7 @@ int main() {
     if (pid == 0) {
       close(fd[0]);
       if (errFd >= 0) dup2(errFd, 2);
+      { int nul = open("/dev/null", O_WRONLY); if (nul >= 0) { dup2(nul, 1); close(nul); } }   // parseOptions writes to std::cout; the answers go through the pipe
       worker(ops, answers.size(), fd[1], cpuMs);
     }
     close(fd[1]);
